@@ -47,31 +47,42 @@ Theorem legacy_diteration_prange_refuted :
 Proof. exact PrangeProofs.legacy_diteration_prange_refuted. Qed.
 Print Assumptions legacy_diteration_prange_refuted.
 
-(** Obligation over the prange loops re-extracted from every .pyx on this run: outside push.pyx every prange body is
-    write-free (reduction only) or writes only the cell of its own loop variable, and calls no container method;
-    push.pyx has exactly its two reviewed loops (initialisation: own-cell writes; inner loop: a write through
-    indices[...] and worklist.push, flagged and exercised at run time under several thread counts). *)
+(** The inner neighbour loop of push.pyx ran under prange before its repair (fix 16742c7c) while every iteration pushed
+    into the one work-list: NOT a function of its input (two complete schedules, two work-lists), and rejected by the
+    independence checker. *)
+Theorem legacy_push_worklist_refuted :
+  exists s1 s2 m0,
+    complete legacy_push_two_neighbours s1 /\ complete legacy_push_two_neighbours s2 /\
+    fst (run s1 m0 (init_threads legacy_push_two_neighbours)) <>
+    fst (run s2 m0 (init_threads legacy_push_two_neighbours)) /\
+    independent_b legacy_push_two_neighbours = false.
+Proof. exact PrangeExtra.legacy_push_worklist_refuted_pf. Qed.
+Print Assumptions legacy_push_worklist_refuted.
+
+(** Obligation over the prange loops re-extracted from every .pyx on this run: EVERY prange body is write-free
+    (reduction only) or writes only the cell of its own loop variable, and calls no container method - the two loop
+    shapes covered by the theorems above; push.pyx keeps exactly one such loop (its initialisation: own-cell writes; the
+    inner neighbour loop is sequential since fix 16742c7c) and diteration.pyx none (fix 41979071). *)
 Definition loop_safe (l : prange_loop) : bool :=
   forallb (fun w => match w with (_, Own, _) => true | (_, Other, _) => false end) (pl_writes l) &&
   match pl_calls l with [] => true | _ => false end.
 Theorem prange_loops_reviewed :
-  forallb (fun l => loop_safe l || String.eqb (pl_file l) "sknetwork/linalg/push.pyx") prange_loops = true /\
+  forallb loop_safe prange_loops = true /\
   filter (fun l => String.eqb (pl_file l) "sknetwork/linalg/push.pyx") prange_loops =
     [ {| pl_file := "sknetwork/linalg/push.pyx"; pl_var := "vertex";
-         pl_writes := [("residuals", Own, "+="); ("residuals", Own, "*=")]; pl_reductions := []; pl_calls := [] |};
-      {| pl_file := "sknetwork/linalg/push.pyx"; pl_var := "j";
-         pl_writes := [("residuals", Other, "+=")]; pl_reductions := []; pl_calls := ["worklist.push"] |} ] /\
+         pl_writes := [("residuals", Own, "+="); ("residuals", Own, "*=")]; pl_reductions := []; pl_calls := [] |} ] /\
   existsb (fun l => String.eqb (pl_file l) "sknetwork/linalg/diteration.pyx") prange_loops = false.
 Proof. repeat split; reflexivity. Qed.
 Print Assumptions prange_loops_reviewed.
 
 (** Obligation over the randomness call sites re-extracted on this run: no estimator builds its generator in
-    __init__ (fix f557bdfd), the ARPACK wrappers pass a start vector (fix 66b80972), libc rand() occurs only in
-    leiden_core.pyx (recorded finding D13), and the global NumPy generator is used exactly at the reviewed sites
-    (none of which belongs to an estimator with a random_state parameter, except GNNClassifier which seeds it). *)
+    __init__ (fix f557bdfd), the ARPACK wrappers pass a start vector (fix 66b80972), libc rand() occurs nowhere
+    (fix 0f5490bf: Leiden's refinement kernel draws from a local generator), and the global NumPy generator is used exactly
+    at the reviewed sites (none of which belongs to an estimator with a random_state parameter, except GNNClassifier which
+    seeds it). *)
 Theorem randomness_sites_reviewed :
   rng_built_in_init = [] /\ eigsh_has_v0 = true /\ svds_has_v0 = true /\
-  libc_rand_files = ["sknetwork/clustering/leiden_core.pyx"] /\
+  libc_rand_files = [] /\
   global_rng_sites =
     ["sknetwork/classification/propagation.py:Propagation.fit:np.random.shuffle";
      "sknetwork/clustering/kcenters.py:KCenters._init_centers:np.random.choice";
